@@ -153,18 +153,21 @@ prop(
 
 prop(
     "C04",
-    runs=[dict(crate="app", quick=["c04::q::", "c04::qc::"], thorough=["c04::q::", "c04::qc::", "c04::t::"])],
-    functions=["VehicleRestriction::valid (6 kinds)", "CombinedFrontierModel::valid_frontier", "WeightUnit::convert", "DistanceUnit::convert"],
+    runs=[dict(crate="app", quick=["c04::q::", "c04::qc::"], thorough=["c04::q::", "c04::qc::", "c04::t::"]),
+          dict(crate="core", quick=["c04core::q::"], thorough=["c04core::q::"])],
+    functions=["VehicleRestriction::valid (6 kinds)", "CombinedFrontierModel::valid_frontier", "EdgeCutFrontierModel::{new, valid_frontier}", "WeightUnit::convert", "DistanceUnit::convert"],
     bounds=("vehicle quantity and limit: any finite f64 in 1e-3..1e6; the (kind, vehicle unit, limit unit) triple is concrete per harness: 4 length kinds x 25 unit pairs, total weight x 9, weight per axle x 9 x axles in {0,1,2,3,5} = 154 instances (33 quick); "
-            "combined model: 0..3 inner models each answering Ok(true) / Ok(false) / Err (symbolic), any edge, with and without previous edge; unwind 5"),
+            "combined model: 0..3 inner models each answering Ok(true) / Ok(false) / Err (symbolic), any edge, with and without previous edge; "
+            "edge-cut wrapper: 0, 1 or 3 cut edges with symbolic ids, wrapped model answering Ok(true) / Ok(false) / Err, any edge; unwind 5"),
     assumptions=[
         "oracle = physical conversion factor (SI table in the harness); inside a band of 0.1 percent around equality either answer is accepted (the unit table's own tolerance, property C09)",
         "inner models of the combined model are harness-defined implementations of the FrontierModel trait returning arbitrary answers",
         "std::hash::RandomState::new stubbed (an EMPTY StateModel is constructed; no hashing happens)",
-        "RoadClassFrontierModel, TurnRestrictionFrontierModel, VehicleRestrictionFrontierModel (std HashSet / HashMap lookups in the app crate), EdgeCutFrontierModel and the search loop's consultation of the model for every candidate edge are NOT covered",
+        "edge-cut wrapper: the cut-edge set is the hook H1 table model",
+        "RoadClassFrontierModel, TurnRestrictionFrontierModel, VehicleRestrictionFrontierModel (std HashSet / HashMap lookups in the app crate) and the search loop's consultation of the model for every candidate edge are NOT covered",
     ],
     out=["road-class / turn-restriction / per-edge restriction lookups", "the search loop", "JSON parsing of vehicle parameters and road classes"],
-    oracle="valid == (quantity * physical factor [/ axles] <= limit) outside the tolerance band; combined = conjunction with error propagation",
+    oracle="valid == (quantity * physical factor [/ axles] <= limit) outside the tolerance band; combined = conjunction with error propagation; a cut edge is never usable, any other edge is the wrapped model's call",
 )
 
 prop(
@@ -187,7 +190,7 @@ prop(
 prop(
     "C08",
     runs=[dict(crate="pt", quick=["c08::q::"], thorough=["c08::q::", "c08::t::"])],
-    functions=["vehicle_ops::{soc_from_battery_and_delta, as_soc_percent, update_soc_percent}", "StateModel::{get_custom_f64, set_custom_f64}", "PredictionModelRecord::predict (cache = None)", "Energy::create", "EnergyRateUnit::associated_*"],
+    functions=["vehicle_ops::{soc_from_battery_and_delta, as_soc_percent, update_soc_percent}", "StateModel::{get_custom_f64, set_custom_f64}", "PredictionModelRecord::predict (cache = None)", "ICE::best_case_energy", "Energy::create", "EnergyRateUnit::associated_*"],
     bounds=("charge arithmetic: capacity in [1e-3, 1e4], energies in +-1e4 (range claim), capacity pinned to {60, 0.5, 1000} for the unclamped formula; "
             "predict: rate any finite f64 with 1e-6 <= |r| <= 1e3 (both signs) with adjustment and distance pinned per instance, or distance in [1e-3, 1e7] with rate and adjustment pinned; 5 (rate unit, distance unit) instances; unwind 4"),
     assumptions=[
@@ -234,15 +237,16 @@ prop(
 
 prop(
     "C03",
-    runs=[dict(crate="core", quick=["c03::q::", "c03::s1::add_time", "c03::s1::add_distance"], thorough=["c03::q::", "c03::s1::"])],
+    runs=[dict(crate="core", quick=["c03::q::", "c03::s1::add_time", "c03::m::distance_model", "c03::m::turn_delay"], thorough=["c03::q::", "c03::s1::", "c03::m::distance_model", "c03::m::turn_delay"])],
     functions=["EdgeHeading::{bearing_to_destination, start_heading, end_heading}", "Turn::from_angle", "TurnDelayAccessModelEngine::get_delay", "get_headings",
-               "StateModel::{add_distance, add_time, add_energy, set_energy, get_distance, get_time, get_energy} (one-feature models, container lookups stubbed)"],
+               "StateModel::{add_distance, add_time, add_energy, set_energy, get_distance, get_time, get_energy} (one-feature models, container lookups stubbed)",
+               "DistanceTraversalModel::traverse_edge", "TurnDelayAccessModel::access_edge"],
     bounds=("headings any i16 in 0..360; angle any i16; 8 table delays any finite f64 in [0, 1e4]; "
             "state model: one-feature models, the added / set value any finite f64 in [1e-3, 1e6] (energy 1e4), the accumulator's previous content pinned to a non-zero constant, unit pairs s->min, km->mi, kWh->gal; unwind 4-10"),
     assumptions=[
         "hooks H1 (turn delay table, cost tables) and H2 (CostModel::verif_from_parts); rate kernels stubbed by their non-recursive equivalents (see C07)",
         "EdgeTraversal::{forward_traversal, reverse_traversal} on a fixture instance (harness c03::l3, kept as a documented attempt): 17 GB with a neighbouring edge, no verdict in 1500 s even with a feature-less cost model - NOT covered, so the order 'access update for the network-ordered edge pair, then traversal update' is NOT decided",
-        "the real SpeedTraversalModel / DistanceTraversalModel / TurnDelayAccessModel::access_edge go through the state model by their hard-coded feature names and did not return (400-900 s probes): NOT covered - so 'time is length over table speed' is NOT decided",
+        "one call of the REAL DistanceTraversalModel::traverse_edge and TurnDelayAccessModel::access_edge on a one-feature state vector whose previous content is a constant (edge length resp. headings and table delays symbolic); SpeedTraversalModel::traverse_edge on its own two-feature model did not return in 900 s even with the table speed and previous state pinned (c03::m::attempts) - so 'time = length / table speed' is decided only at the level of the Time constructor (C09), NOT through the speed model",
         "state-model harnesses: CompactOrderedHashMap::{get, get_index} are stubbed to resolve every name to the single entry of a one-feature model (slot resolution by name is the container's business, C11); the accumulator's previous content is a constant (with a symbolic one the convert-add-convert chain against an oracle did not return in 600 s); two-feature versions (own-slot-only) did not return in 900-1200 s and are kept as documented attempts (c03::s)",
         "route-level accumulation by the search loop, reorient_reverse_route, the summary / traversal output plugins and output units are NOT covered",
         "std::fmt::format and StateModel::get_names (error message) stubbed",
